@@ -656,7 +656,7 @@ def gen_history(rng, nops):
                 op = {'op': 'setitem', 't': t, 'c': rng.choice(m.cols + free[:1]), 'v': gen.cells(rng, bad)}
         elif k == 'setcol_from':
             s = rng.randrange(len(mp))
-            if mp[s].cols and m.cols and (mp[s].n == m.n):
+            if mp[s].cols and m.cols and (mp[s].n == m.n or mp[s].n == 1):        # the column list of a one-row table is broadcast like any length-1 list - and stays that table's column
                 op = {'op': 'setcol_from', 't': t, 'c': rng.choice(m.cols + free[:1]), 's': s, 'sc': rng.choice(mp[s].cols)}
         elif k == 'del' and m.cols:
             op = {'op': 'del', 't': t, 'c': rng.choice(m.cols), 'via': rng.choice(['item', 'attr'])}
